@@ -170,6 +170,31 @@ def sl_cfg(threads, rounds, defects=()):
             "INVARIANT FlagMeansHeld\nINVARIANT NoDeadlock\nCHECK_DEADLOCK FALSE\n" % (", ".join(map(str, threads)), rounds, tla_value(set(defects))))
 
 
+# generated scenarios: the scenario sets of ConcCLMC (ScenSet = [Threads -> Progs], ScenSet1 = single calls, InitLen = 2) in the runner's syntax
+CC_OPS = ["a", "v", "p", "e", "f", "o1", "i1", "i2", "r1", "r2"]
+CC_PROGS = CC_OPS + [x + "," + y for x in ("a", "r1") for y in ("v", "r1", "i1")]
+
+
+def cc_generated(tier, seed, have):
+    import random
+    quick = tier == "quick"
+    s2 = ["2:%s|%s" % (a, b) for a in CC_PROGS for b in CC_PROGS]
+    s3 = ["2:%s|%s|%s" % (a, b, c) for a in CC_OPS for b in CC_OPS for c in CC_OPS]
+    # a scenario of queries only has nothing to race with
+    busy = lambda s: any(op[0] in "apir" for th in s.split(":")[1].split("|") for op in th.split(","))
+    s2 = [s for s in s2 if s not in have and busy(s)]
+    s3 = [s for s in s3 if s not in have and busy(s)]
+    rnd = random.Random(seed * 104729 + 3)
+    rnd.shuffle(s2)
+    rnd.shuffle(s3)
+    if quick:
+        s2, s3 = s2[:18], s3[:9]
+    else:
+        s3 = s3[:200]
+    return ([{"scenario": s, "bound": 2, "max": 1500 if quick else 30000, "rand": 100 if quick else 1500, "generated": True} for s in s2]
+            + [{"scenario": s, "bound": 1, "max": 1500 if quick else 30000, "rand": 150 if quick else 2000, "generated": True} for s in s3])
+
+
 def c03(tier, seed):
     quick = tier == "quick"
     sc2 = ["2:i1|r1", "2:i2|r2,a", "2:a,v|r1", "2:r1|r1", "2:p,o1|r1,e", "2:v|r2,a", "2:i1,v|r1,a", "2:a,r10|v", "1:r1,e|a,e", "2:f|i2,r1", "0:a,r10|e,v",
@@ -179,6 +204,7 @@ def c03(tier, seed):
     # dispatcher only: calls on other events (each thread inserts its own new key into the shared map) racing calls on event 1
     for i, s in enumerate(["2:x,a|x,r1", "2:x,y,v|x,z,i1", "1:x,z|v,x|r1,x", "2:i1,x|x,y,r2"]):
         scen.append({"scenario": s, "bound": 2 if s.count("|") == 1 else 1, "max": 4000 if quick else 100000, "runner": 1 + i % 2})
+    scen += cc_generated(tier, seed, set(x["scenario"] for x in scen))
     models = [{"module": "ConcCLMC", "tag": "2threads", "cfg": cc_cfg([1, 2], "ScenSet")},
               # the SpinLock policy mutex refines the `mtx` abstraction the other models use
               {"module": "SpinLock", "tag": "spinlock", "cfg": sl_cfg([1, 2, 3], 2 if quick else 3)}]
